@@ -70,21 +70,47 @@ def intersection_rebuild(facts):
     for pat, fn in sorted(fns.items()):
         if fn.get("rect") != "datasketches::theta_intersection_base" or fn["name"] != "update":
             continue
-        # find `if (match_count == 0) {...} else {...}` : the else must be unconditional and re-insert all matched entries
-        def v(n):
-            if n.get("k") == "If" and txt(n["c"]).replace(" ", "") == C("(match_count==0)"):
-                key = "theta_intersection_base::update:rebuild-after-match"
-                e = n.get("e")
-                if e is None or e.get("k") == "If":
-                    out.append(ob("tuple.rebuild", key, n["loc"], "violated", "the rebuild of the table from the matched entries is %s: matched entries were moved out of the table (push_back(std::move(*result.first))), so skipping the rebuild leaves moved-from summaries in the result" % ("conditional (`else if (%s)`)" % txt(e["c"]) if e is not None else "missing"), fn["qname"]))
-                    return
-                ins = []
-                walk(e, lambda x: ins.append(x) if x.get("k") == "Call" and x.get("cname") == "insert" else None)
-                loops = []
-                walk(e, lambda x: loops.append(x) if x.get("k") == "For" else None)
-                if ins and loops and "match_count" in txt(loops[0]["c"]):
-                    out.append(ob("tuple.rebuild", key, n["loc"], "discharged", "else-branch unconditionally re-inserts all match_count matched entries", fn["qname"]))
-                else:
-                    out.append(ob("tuple.rebuild", key, n["loc"], "violated", "else-branch does not re-insert all matched entries", fn["qname"]))
-        walk(fn["body"], v)
+        # the loop that re-inserts the matched entries (insert calls under a loop bounded by the match counter) must run whenever
+        # any entry matched: at that loop nothing may be known but `match_count != 0` - beyond what already holds where the
+        # entries are moved out (push_back(std::move(...)))
+        from astu import reach_tagged, single_assignment_locals
+        moved, loops = [], []
+        walk(fn["body"], lambda x: moved.append(x) if x.get("k") == "Call" and x.get("cname") == "push_back" and "move(" in txt(x) else None)
+
+        def lv(x):
+            if x.get("k") in ("For", "RangeFor", "While") and any(y.get("k") == "Call" and y.get("cname") == "insert" for y in _all(x.get("b"))):
+                t = txt(x.get("c")) if x.get("c") is not None else txt(x.get("range"))
+                if "match" in t or "matched" in t:
+                    loops.append(x)
+        walk(fn["body"], lv)
+        key = "theta_intersection_base::update:rebuild-after-match"
+        if not moved:
+            continue
+        if not loops:
+            out.append(ob("tuple.rebuild", key, fn["pat"], "violated", "the rebuild of the table from the matched entries is missing: matched entries were moved out of the table (push_back(std::move(*result.first))), so skipping the rebuild leaves moved-from summaries in the result", fn["qname"]))
+            continue
+        # conditions of the enclosing branches of the moving loop hold for the rebuild too; everything else is extra
+        mv_loop = None
+
+        def find_outer(x):
+            nonlocal mv_loop
+            if x.get("k") in ("For", "RangeFor", "While") and any(y is moved[0] for y in _all(x.get("b"))) and mv_loop is None:
+                mv_loop = x
+        walk(fn["body"], find_outer)
+        base = set(C(txt(l)) for l, o in reach_tagged(fn["body"], mv_loop or moved[0]) if o != "loop")
+        extra = [C(txt(l)) for l, o in reach_tagged(fn["body"], loops[0]) if o not in ("loop", "after-throw") and C(txt(l)) not in base]
+        extra = [t for t in extra if t not in (C("(match_count!=0)"), C("(0!=match_count)"), C("(match_count>0)"))]
+        if not extra:
+            out.append(ob("tuple.rebuild", key, loops[0]["loc"], "discharged", "whenever any entry matched, all match_count matched entries are re-inserted", fn["qname"]))
+        else:
+            out.append(ob("tuple.rebuild", key, loops[0]["loc"], "violated", "the rebuild of the table from the matched entries is conditional on `%s`: matched entries were moved out of the table (push_back(std::move(*result.first))), so skipping the rebuild leaves moved-from summaries in the result" % " && ".join(extra), fn["qname"]))
     return out
+
+
+def _all(n):
+    acc = []
+    walk(n, lambda x: acc.append(x))
+    return acc
+
+
+
